@@ -27,7 +27,7 @@ REQUIRE = {'chain_dfxp': 50, 'chain_sami': 50, 'chain_dfxp>sami': 30, 'chain_sam
            'reader_captions_balance_checked': 200, 'chars_compared': 5000, 'spans_across_break': 50,
            'adjacent_spans': 50, 'empty_spans': 20, 'italic_chars': 500, 'bold_chars': 200, 'underline_chars': 200, 'positioned_captions': 30, 'suite_captions_balance_checked': 300,
            'rollup_streams_with_italics_read': 20, 'dfxp_documents_round_tripped': 20,
-           'webvtt_sets_with_class_styled_spans': 20, 'dfxp_documents_with_attribute_spellings': 20,
+           'webvtt_sets_with_class_styled_spans': 20, 'dfxp_sets_with_class_styled_spans': 20, 'dfxp_documents_with_attribute_spellings': 20,
            'sami_documents_with_attribute_spellings': 20}
 
 KINDS = [{'italics': True}, {'italics': True}, {'bold': True}, {'underline': True}, {'italics': True, 'bold': True},
@@ -42,6 +42,10 @@ CLASS_STYLES = {'ki': {'italics': True}, 'Strong': {'bold': True}, 'titleRef': {
 CLASS_KINDS = [{'class': 'ki'}, {'classes': ['ki'], 'class': 'ki'}, {'classes': ['ki', 'Strong'], 'class': 'ki'}, {'class': 'titleRef'},
                {'class': 'kplain'}, {'class': 'kall'}, {'class': 'ki', 'italics': False}, {'class': 'Strong', 'underline': True},
                {'class': 'nosuch'}]
+
+
+DIRECT_CLASS_KINDS = [{'class': 'ki'}, {'class': 'kplain'}, {'class': 'Strong'}, {'class': 'nosuch'},
+                      {'class': 'ki', 'color': 'red'}]
 
 
 def resolve_flags(style, styles, depth=0):
@@ -219,6 +223,22 @@ def cases(ctx):
                     elif opened:
                         nd[2] = opened.pop()
             feats.add('class-styled')
+        elif chain == 'dfxp' and rng.random() < 0.3:
+            # DFXP to DFXP: spans that name a style of the set (directly: how a style that itself refers to another
+            # one comes out depends on the order the styles are written in, and is not judged); the set also has
+            # styles that refer to others
+            styles = {k: dict(v) for k, v in CLASS_STYLES.items()}
+            for c in caps:
+                opened = []
+                for nd in c['nodes']:
+                    if nd[0] != 's':
+                        continue
+                    if nd[1]:
+                        opened.append(rng.choice(DIRECT_CLASS_KINDS) if rng.random() < 0.6 else nd[2])
+                        nd[2] = opened[-1]
+                    elif opened:
+                        nd[2] = opened.pop()
+            feats.add('class-styled-dfxp')
         yield {'kind': 'chain', 'chain': chain, 'features': sorted(feats),
                'inline_positioning': rng.random() < 0.4,
                'set': {'langs': [{'lang': 'en-US', 'layout': None, 'captions': caps}], 'styles': styles, 'layout': None}}
@@ -339,7 +359,8 @@ def check(case, ctx):
     ctx.count('chain_' + chain)
     for f in case['features']:
         ctx.count({'across-break': 'spans_across_break', 'adjacent': 'adjacent_spans', 'empty': 'empty_spans',
-                   'positioned': 'positioned_captions', 'class-styled': 'webvtt_sets_with_class_styled_spans'}[f])
+                   'positioned': 'positioned_captions', 'class-styled': 'webvtt_sets_with_class_styled_spans',
+                   'class-styled-dfxp': 'dfxp_sets_with_class_styled_spans'}[f])
     cs = dump.mk_caption_set(case['set'])
     want = [flags_of_nodes(c['nodes'], case['set'].get('styles'))[0] for c in case['set']['langs'][0]['captions']]
     for cap in want:
@@ -388,7 +409,9 @@ def check(case, ctx):
         if len(caps) != len(want):
             return [{'what': 'number of captions changed', 'step': step, 'got': len(caps)}]
         for k, (c, w) in enumerate(zip(caps, want)):
-            got, problems = flags_of_nodes([dump.node(n) for n in c.nodes])
+            # a span read back may name a style of the set read back instead of carrying the flag itself
+            got, problems = flags_of_nodes([dump.node(n) for n in c.nodes],
+                                           {k: dict(v) for k, v in cur.get_styles()} or None)
             for p in problems:
                 fails.append({'what': 'caption read back has unbalanced style nodes: ' + p, 'step': step})
             ctx.count('chars_compared', len(w))
